@@ -119,12 +119,7 @@ def run(case, ctx):
             if not ms:
                 detail = '%r matches none of %r (all: %r)' % (r, distinct,
                                                                rexes)
-                if known_nad:
-                    out.known_hit(c03.F_NONASCII_DECIMAL, detail)
-                elif sampling:
-                    out.known_hit(c03.F_SAMPLING, detail)
-                else:
-                    out.violate('matches-an-example', name, detail)
+                out.violate('matches-an-example', name, detail)
         match_sets[name] = sets
         if len(set(rexes)) != len(rexes):
             out.violate('no-duplicates', name, 'duplicates in %r' % (rexes,))
